@@ -1169,13 +1169,23 @@ impl World {
         // complete, unmodified encapsulation carried by another stored object (a header's or a
         // ciphertext's). What it opens to is then that object's business: the only thing checked
         // is that nothing but that object's secret comes out.
-        if src == slot && s0.bytes != s0.orig && s0.kind == SlotKind::Kem {
+        let cur_enc: Option<Vec<u8>> = if src == slot && s0.bytes != s0.orig {
+            match s0.kind {
+                SlotKind::Kem => Some(s0.bytes.clone()),
+                // a header without encrypted metadata is an encapsulation and an empty field
+                SlotKind::Header => wire::parse_header(&s0.bytes).ok().filter(|h| h.meta_span.0 == h.meta_span.1).map(|h| s0.bytes[..h.enc.end].to_vec()),
+                SlotKind::Pke => None,
+            }
+        } else {
+            None
+        };
+        if let Some(cur) = cur_enc {
             let donor = self.slots.iter().enumerate().find(|(j, o)| {
                 *j != slot
                     && match o.kind {
-                        SlotKind::Kem => false,
-                        SlotKind::Pke => o.enc_len > 0 && o.orig.len() >= o.enc_len && o.orig[..o.enc_len] == s0.bytes[..],
-                        SlotKind::Header => wire::parse_header(&o.orig).map(|h| o.orig[..h.enc.end] == s0.bytes[..]).unwrap_or(false),
+                        SlotKind::Kem => s0.kind != SlotKind::Kem && o.orig == cur,
+                        SlotKind::Pke => o.enc_len > 0 && o.orig.len() >= o.enc_len && o.orig[..o.enc_len] == cur[..],
+                        SlotKind::Header => wire::parse_header(&o.orig).map(|h| o.orig[..h.enc.end] == cur[..]).unwrap_or(false),
                     }
             });
             if donor.is_some() {
